@@ -2716,7 +2716,8 @@ class FlowIR(object):
         """
         known_components = cls.organize_identifiers_to_stages(component_ids)
 
-        method_pattern = '|'.join(cls.data_reference_methods)
+        # VV: try the longest methods first, otherwise `:copy` matches the beginning of `:copyout`
+        method_pattern = '|'.join(sorted(cls.data_reference_methods, key=lambda x: len(x), reverse=True))
 
         # VV: Variable references or paths that contain numbers, letters, `_`, `-`, `.` followed by a reference method
         pattern = re.compile(r"([.a-zA-Z0-9_/-]|%s)+:(%s)" % (FlowIR.VariablePattern, method_pattern))
